@@ -8,7 +8,8 @@ m = [('Bits.__add__', 'C01'), ('BitStore operations honour', 'C08'), ('negative 
      ('item width in bits', 'C14'), ('Array.insert', 'C14'), ('buffer-backed pattern', 'C07'), ('Array.count', 'C14'), ('set(value, range)', 'C03'),
      ('byteswap(', 'C03'), ('empty slice inserts', 'C12'), ('disagrees with a hex', 'C15'),
      ('negative lengths when creating a Dtype', 'C06'), ('ConstBitStream.copy()', 'C06'), ('ignore the lsb0 option', 'C12'),
-     ('lsb0 findall finds every match', 'C07'), ('byte aligned find and rfind in lsb0', 'C12'), ('little-endian bitarray source', 'C08'), ('slice step of zero', 'C12'), ('findall raises ValueError for an empty pattern', 'C07')]
+     ('lsb0 findall finds every match', 'C07'), ('byte aligned find and rfind in lsb0', 'C12'), ('little-endian bitarray source', 'C08'), ('slice step of zero', 'C12'), ('findall raises ValueError for an empty pattern', 'C07'),
+     ('very large int', 'C13'), ('extended slice of itself', 'C14')]
 log = subprocess.run(['git', '-C', '/repo', 'log', '--format=%h %s'], capture_output=True, text=True).stdout.splitlines()
 out = []
 for line in log:
